@@ -551,7 +551,8 @@ pub fn run(id: &str, data: &[u8]) -> Option<Outcome> {
                     value_for(u, vk, 20)
                 }
             };
-            let c = c18::Case { kind, fixp: if u.chance(230) { Some((q, off, u.bool())) } else { None }, vbits, val };
+            let extras = if u.bool() { Some((u.bool(), if u.bool() { Some(short_text(u, 8)) } else { None }, if u.bool() { Some(short_text(u, 8)) } else { None }, u.bool(), u.below(8) as u8)) } else { None };
+            let c = c18::Case { kind, fixp: if u.chance(230) { Some((q, off, u.bool())) } else { None }, vbits, val, extras };
             let r = c18::check(&c);
             out("random", json!(c), r)
         }
